@@ -494,7 +494,8 @@ def workload(ctx, lentil):
             dtype = [np.int64, np.uint64, int][i % 3]
             sat = None
             ctx.bucket('adc:beyond-64-bit')
-        saturated = sat is not None and bool((e > sat).any())
+        # (compared as double precision numbers: a float32 pixel next to a double capacity must not be compared in single precision)
+        saturated = sat is not None and bool((np.asarray(e).astype(np.longdouble) > np.longdouble(sat)).any())
         desc = {'adc': form, 'order': order, 'shape': list(shape), 'sat': sat, 'warn': warn, 'dtype': str(dtype),
                 'h': probe.fp_array(e)[:8]}
         bks = [f'gain:{form}'] + (['adc:negative'] if neg else []) + (['adc:saturated'] if saturated else []) \
